@@ -42,21 +42,30 @@ def updateCols (sc : Schema) (cfg : Cfg) (sets : List (Nat × SetE)) : List Nat 
 inductive P1Err | sql (e : SqlErr) | pkChanged
   deriving Repr, DecidableEq
 
+/-- phase one of an UPDATE that names no key column -/
+def updatePhase1 (sc : Schema) (cfg : Cfg) (t : Table) (args : Args) (sets : List (Nat × SetE)) (w : Cond) :
+    Except P1Err (Table × Item × List Key) :=
+  let cols := updateCols sc cfg sets
+  let hit := t.filter fun r => matches_ r args w
+  match apply sc t args (.update sets w) with
+  | .error e => .error (.sql e)
+  | .ok (t', _) =>
+    let keys := hit.map (keyOf sc)
+    let after := t'.filter fun r => keys.contains (keyOf sc r)
+    if hit.length != after.length then .error .pkChanged
+    else .ok (t', { kind := .update, before := hit.map (project sc cols), after := after.map (project sc cols) }, keys)
+
+/-- does the SET list name a key column? -/
+def namesKey (sc : Schema) (sets : List (Nat × SetE)) : Bool := sets.any fun p => sc.pk.contains p.1
+
 /-- phase one of ONE statement inside a local transaction: the new table, the undo item and the
     keys to lock -/
 def stmtPhase1 (sc : Schema) (cfg : Cfg) (t : Table) (args : Args) (s : Stmt) :
     Except P1Err (Table × Item × List Key) :=
   match s with
   | .update sets w =>
-    let cols := updateCols sc cfg sets
-    let hit := t.filter fun r => matches_ r args w
-    match apply sc t args s with
-    | .error e => .error (.sql e)
-    | .ok (t', _) =>
-      let keys := hit.map (keyOf sc)
-      let after := t'.filter fun r => keys.contains (keyOf sc r)
-      if hit.length != after.length then .error .pkChanged
-      else .ok (t', { kind := .update, before := hit.map (project sc cols), after := after.map (project sc cols) }, keys)
+    -- an UPDATE that names a key column is refused before it runs
+    if namesKey sc sets then .error .pkChanged else updatePhase1 sc cfg t args sets w
   | .delete w =>
     let hit := t.filter fun r => matches_ r args w
     match apply sc t args s with
@@ -68,6 +77,26 @@ def stmtPhase1 (sc : Schema) (cfg : Cfg) (t : Table) (args : Args) (s : Stmt) :
     | .ok (t', _) =>
       let news := rows.map fun es => es.map (evalE [] args)
       .ok (t', { kind := .insert, before := [], after := news.map (project sc (allCols sc)) }, news.map (keyOf sc))
+
+theorem stmtPhase1_update_ok {sc : Schema} {cfg : Cfg} {t : Table} {args : Args} {sets : List (Nat × SetE)} {w : Cond}
+    {r : Table × Item × List Key} (h : stmtPhase1 sc cfg t args (.update sets w) = .ok r) :
+    namesKey sc sets = false ∧ updatePhase1 sc cfg t args sets w = .ok r := by
+  simp only [stmtPhase1] at h
+  split at h
+  · cases h
+  · rename_i hn
+    exact ⟨by simpa using hn, h⟩
+
+theorem stmtPhase1_update_of_noKey {sc : Schema} {cfg : Cfg} {t : Table} {args : Args} {sets : List (Nat × SetE)} {w : Cond}
+    (hn : namesKey sc sets = false) :
+    stmtPhase1 sc cfg t args (.update sets w) = updatePhase1 sc cfg t args sets w := by
+  simp [stmtPhase1, hn]
+
+theorem namesKey_false_of {sc : Schema} {sets : List (Nat × SetE)} (hs : ∀ p ∈ sets, p.1 ∉ sc.pk) :
+    namesKey sc sets = false := by
+  simp only [namesKey, List.any_eq_false]
+  intro p hp
+  simpa using hs p hp
 
 /-- a local transaction (one branch): statements with their arguments -/
 abbrev LocalTx := List (Stmt × Args)
